@@ -66,6 +66,21 @@ def faildirect_scenario(rng, sid):
           "m quiesce", "m shutdown", "m sleep 20000", "m shutdown_wait", "m destroy", "m reset"]
     return "\n".join(L) + "\n", {"n": n, "faildirect": True}
 
+def notrunning_scenario(rng, sid):
+    """worker 0 is never started (and possibly one more died in pthread_create): every completion-style broadcast from a
+    running worker must still reach all the running ones - skip what cannot take the message, never stop at it"""
+    n = rng.choice([3, 4])
+    base = (sid % 400) * 100 + 80
+    L = ["m pool %d 0" % n, "m start 1", "m waitrun"]
+    w = rng.randrange(1, n)
+    k = 0
+    for f in (OBO, OBO | SELF_SKIP, OBO | SELF_DIRECT, 0, SELF_SKIP, OBO | FORCE):
+        k += 1
+        L.append("w%d cbsend %d %d %d" % (w, f, base + k, k))
+    L += ["m spawn w%d" % w, "m join w%d" % w] + ["m gatewait %d" % g for g in range(1, k + 1)]
+    L += ["m quiesce", "m shutdown", "m sleep 20000", "m shutdown_wait", "m destroy", "m reset"]
+    return "\n".join(L) + "\n", {"n": n, "notrunning": True}
+
 def prep(evs):
     evs = tp.rename_pvt(evs); sel = []
     for seg in c05.segments(evs):
@@ -108,6 +123,7 @@ def run(ctx):
         for _ in range(per_proc):
             sid += 1
             if sid % 10 == 4: t, m = faildirect_scenario(rng, sid)
+            elif sid % 10 == 7: t, m = notrunning_scenario(rng, sid)
             else: t, m = gen_scenario(rng, sid, big=(not ctx.quick) or sid % 5 == 0)
             texts.append(t)
         rc, out, evs = tp.run_scenario(exe, "".join(texts), d, ctx.seed + sid, "c10_%d" % sid, timeout=300)
